@@ -99,7 +99,7 @@ def generate(rnd, tier):
         if rnd.random() < 0.1 and not wide:
             ops.append({"op": "reseed", "seed": rnd.randrange(2**31)})
             continue
-        tkind = rnd.choice(["scalar", "list", "list", "array"])
+        tkind = rnd.choice(["scalar", "list", "list", "array", "tuple"])
         if wide:
             tkind, thr = "array", wide_thr
         elif tkind == "scalar":
@@ -293,7 +293,7 @@ def execute(scn, ctx):
         sc, ec = op["score_class"], op["equal_class"]
         thr_in = op["threshold"]
         tk = op.get("tkind", "list")
-        thr_arg = thr_in if tk in ("scalar", "list") else np.asarray(thr_in, dtype=float)
+        thr_arg = thr_in if tk in ("scalar", "list") else tuple(thr_in) if tk == "tuple" else np.asarray(thr_in, dtype=float)
         tlist = [float(thr_in)] if tk == "scalar" else [float(t) for t in thr_in]
         thr_fp = M.fingerprint(thr_arg) if isinstance(thr_arg, np.ndarray) else None
         tags = {"normalize": norm, "bootstrap_ci": boot, "multi": multi}
